@@ -51,6 +51,10 @@ def generate_ops(rng, cfg, spec, tier) -> list[dict]:
                                 with_input=False, serde=False)[0]
         return {"op": "query", "target": tgt, "q": q}
 
+    if cfg["lazy"] and rng.random() < 0.3:
+        # bias: compute() fails half-way right after the deferred fit
+        ops.append({"op": "compute_fault", "target": "m", "call": rng.choice([1, 1, 2]), "at": rng.choice([1, 2, 3, 5, 8, 20]),
+                    "exc": rng.choice(["InjectedFault", "MemoryError", "OSError"])})
     # bias: restart right after fit
     if rng.random() < 0.5:
         ops.append(restart("m"))
@@ -80,7 +84,17 @@ def generate_ops(rng, cfg, spec, tier) -> list[dict]:
         elif r < 0.70:
             ops.append({"op": "save", "target": tgt, "codec": rng.choice(["netcdf", "zarr"])})
         elif r < 0.80:
-            ops.append({"op": "compute", "target": tgt})
+            if cfg["lazy"] and rng.random() < 0.7:
+                # compute() of the twin that gets restarted fails half-way (task failure in a drawn scheduler call);
+                # biased to be followed by a restart (the half-way state is what gets stored) and a clean compute()
+                ops.append({"op": "compute_fault", "target": tgt, "call": rng.choice([1, 1, 2, 3, 4, 5]),
+                            "at": rng.choice([1, 1, 2, 3, 5, 8, 20]), "exc": rng.choice(["InjectedFault", "MemoryError", "OSError"])})
+                if rng.random() < 0.6:
+                    ops.append(restart(tgt))
+                if rng.random() < 0.6:
+                    ops.append({"op": "compute", "target": tgt})
+            else:
+                ops.append({"op": "compute", "target": tgt})
         elif r < 0.92 and cfg["rot_params"] and not dataless["m"]:
             ops.append({"op": "rot_fit"})
             has_rot = True
@@ -111,8 +125,8 @@ def _opk(op):
         return f"restart:{op['target']}:{op['codec']}:{'data' if op['save_data'] else 'nodata'}" + ("x2" if op.get("second_rebuild") else "")
     if k == "save":
         return f"save:{op['target']}:{op['codec']}"
-    if k == "compute":
-        return f"compute:{op['target']}"
+    if k in ("compute", "compute_fault"):
+        return f"{k}:{op['target']}"
     return k
 
 
@@ -270,6 +284,33 @@ def execute(cfg: dict, *, stop_at_first=True, trace=False) -> RunResult:
                     if st[f"restarted_{tgt}"]:
                         cov["probes"].add("compute() after a restart")
                     probe(tgt, op, k=2)
+            elif kind == "compute_fault":
+                sim.cfg.permanent_at = int(op["at"])
+                sim.cfg.permanent_exc = op["exc"]
+                sim.cfg.permanent_call = int(op.get("call", 1))
+                sim.cfg.armed_calls = 0
+                b = oracle.capture(B[tgt].compute)
+                fired = not b.ok and b.exc_type == op["exc"] and "injected" in b.exc_msg
+                sim.cfg.permanent_at = None
+                sim.cfg.armed_calls = 0
+                res.log.append(f"  compute_fault {tgt} -> B {b.kind()}")
+                if not b.ok and b.exc_type == "SimHarnessError":
+                    raise sched.SimHarnessError(b.exc_msg)
+                if fired:
+                    # B is left wherever the failure left it; A was not computed. Both must keep giving equal answers,
+                    # through later restarts and a later clean compute()
+                    counts["task_faults"] = counts.get("task_faults", 0) + 1
+                    counts["compute_faults"] = counts.get("compute_faults", 0) + 1
+                    cov["probes"].add("compute() of the restarted twin failed half-way")
+                    probe(tgt, op, k=2)
+                else:
+                    with core.reference_context():
+                        a = oracle.capture(A[tgt].compute)
+                    counts["computes"] += 1
+                    if a.kind() != b.kind():
+                        violate("R2", f"outcome:{b.kind()}!={a.kind()}", f"{tgt}.compute() -> {b.kind()} {b.exc_msg[:160]!r} on the restarted twin, {a.kind()} on the other", op)
+                    else:
+                        probe(tgt, op, k=2)
             elif kind == "rot_fit":
                 if st["dataless_m"]:
                     counts["skips"] += 1
